@@ -87,7 +87,8 @@ def check_roundtrip(case, ctx):
     expect_eq("C19/serialize/bytes-differ", "serialize", ser, want)
     stream = BytesIO(ser)
     back = must_return("C19/parse/refused-valid", "Script.parse(serialize(s)), lens %s" % lens[:8],
-                       Script.parse, stream)
+                       Script.parse, **({"s": stream} if len(ser) % 2 else {})) if len(ser) % 2 else \
+        must_return("C19/parse/refused-valid", "Script.parse(serialize(s)), lens %s" % lens[:8], Script.parse, stream)
     if back.cmds != cmds or not (back == sc):
         raise Violation("C19/parse/roundtrip-differs",
                         "parse(serialize(s)) != s: lens %s got %r" % (lens[:8], [
